@@ -37,6 +37,46 @@ type c02Case struct {
 	KeyForm   int    `json:"key_form"` // 0 "k", 1 "a{t}b", 2 "a{t}b{u}c"
 	Pre       int    `json:"pre"`      // 0 absent, 1 same type, 2 other type
 	Name      string `json:"name"`
+	// Batched: the target connection keeps the arguments of Send until Flush and serialises them
+	// only then, as the tool's cluster connection does (utils.ClusterConn.Send -> Batch.Put)
+	Batched bool `json:"batched_connection,omitempty"`
+}
+
+// c02BatchConn models the argument retention of the cluster connection on top of a real redigo
+// connection: Send stores the command with its argument values as passed (no copy), Flush hands
+// them to the real connection.
+type c02BatchConn struct {
+	redigo.Conn
+	pending []c02Pending
+}
+
+type c02Pending struct {
+	cmd  string
+	args []interface{}
+}
+
+func (b *c02BatchConn) Send(cmd string, args ...interface{}) error {
+	b.pending = append(b.pending, c02Pending{cmd, args})
+	return nil
+}
+
+func (b *c02BatchConn) Flush() error {
+	for _, p := range b.pending {
+		if err := b.Conn.Send(p.cmd, p.args...); err != nil {
+			return err
+		}
+	}
+	b.pending = nil
+	return b.Conn.Flush()
+}
+
+func (b *c02BatchConn) Do(cmd string, args ...interface{}) (interface{}, error) {
+	if len(b.pending) > 0 {
+		if err := b.Flush(); err != nil {
+			return nil, err
+		}
+	}
+	return b.Conn.Do(cmd, args...)
 }
 
 var c02Values []*rdbgen.Value
@@ -226,7 +266,10 @@ func c02Restore(c c02Case, entries []*rdb.BinEntry, lg *rdbgen.Logical, body []b
 	before := srv.Snapshot()
 	cc, sc := memconn.Pair("target")
 	go srv.Serve(sc)
-	rc := redigo.NewConn(cc, 0, 0)
+	var rc redigo.Conn = redigo.NewConn(cc, 0, 0)
+	if c.Batched {
+		rc = &c02BatchConn{Conn: rc}
+	}
 	defer cc.Close()
 
 	var abortMsg string
@@ -473,6 +516,20 @@ func TestVerif_C02(t *testing.T) {
 							}
 						}
 					}
+				}
+			}
+		}
+	}
+	// F. a target connection that keeps Send arguments until Flush (cluster connection): every value
+	// through the single-RESTORE route, the element-wise route and the fallback
+	for v := range c02Values {
+		for thr := 0; thr < 2; thr++ {
+			for _, rej := range bools {
+				if rej && c02Values[v].Type == rdbgen.TStream {
+					continue
+				}
+				for pre := 0; pre < 2; pre++ {
+					run(c02Case{Val: v, Exp: 1, Threshold: thr, KeyExists: "rewrite", Replace: true, Reject: rej, Pre: pre, Batched: true})
 				}
 			}
 		}
